@@ -257,6 +257,22 @@ def make_case(rng, focus="random", profile="debug"):
     sizes = [entry_size(e) for tp in live for e in logs.get(tp, [])]
     M = max(sizes) if sizes else rng.randint(40, 200)
     f = rng.choice([M, M, M + 1, M + rng.randint(1, 40), M + rng.randint(1, 40), 2 * M, 3 * M + 5, 1 << 20])
+    stuck = None
+    if focus == "oversize" and len(live) >= 2:
+        # one partition holds an entry larger than the fetch size (retrying disabled: the default limit 0): polls that fetch it
+        # alone fail with MessageSizeTooLarge; the other partitions must lose nothing meanwhile
+        f = rng.choice([M, M + 1, M + rng.randint(1, 40)])
+        tp = rng.choice(live)
+        lg = list(logs.get(tp, []))
+        lg = [e for e in lg if e[0] == "plain"] if any(e[0] == "wrap" for e in lg) and rng.random() < 0.5 else lg
+        pos = rng.randint(0, len(lg))
+        prev_last = view(lg[:pos])[-1][0] if view(lg[:pos]) else (rng.choice([0, 3]) - 1)
+        nxt_first = view(lg[pos:])[0][0] if view(lg[pos:]) else None
+        big_off = prev_last + 1
+        if nxt_first is None or big_off < nxt_first:
+            big = ("plain", big_off, None, bytes(rng.getrandbits(8) for _ in range(f + rng.randint(1, 60))))
+            logs[tp] = lg[:pos] + [big] + lg[pos:]
+            stuck = [tp[0], tp[1], big_off]
     idle0 = (not late) and rng.random() < 0.4
     calls += [T("with_fallback_offset", [T("earliest")]), T("with_fetch_max_bytes_per_partition", [f])]
     if idle0:
@@ -340,13 +356,20 @@ def make_case(rng, focus="random", profile="debug"):
         hist.append(kind)
         ops.append(item if len(item) > 1 else item["op"])
     # clean tail: as many polls as the slowest partition can need, +1 to see the final empty poll, + one per possibly pending injection
-    need = max([polls_needed(logs.get(tp, []), f) for tp in live] + [0])
+    def before_big(tp):
+        es = logs.get(tp, [])
+        if stuck and (tp[0], tp[1]) == (stuck[0], stuck[1]):
+            return [e for e in es if view([e])[-1][0] < stuck[2]]
+        return es
+    need = max([polls_needed(before_big(tp), f) for tp in live] + [0])
     ntail = need + 1 + ninject
+    if stuck:
+        ntail = 2 * ntail + 3      # every other poll fetches the stuck partition alone and fails
     for i in range(ntail):
         ops.append({"op": T("poll"), "unreachable": []} if i == 0 else T("poll"))
     return {"cluster": spec, "ops": ops, "profile": profile,
             "meta": {"nboot": nboot, "assigned": assigned, "f": f, "hist": hist, "ntail": ntail, "focus": focus, "idle0": idle0,
-                     "maxentry": M}}
+                     "maxentry": M, "stuck": stuck}}
 
 
 LATE_REPLY_CASES = 12     # per quick tier; these exercise the known finding class C01-late-reply
@@ -365,6 +388,8 @@ def gen(rng, tier):
         cases.append(make_case(rng, rng.choice(["random", "fill", "errlast"]), profile="release"))
     for _ in range(LATE_REPLY_CASES * n):
         cases.append(make_case(rng, "latereply"))
+    for _ in range(70 * n):
+        cases.append(make_case(rng, "oversize", profile=rng.choice(["debug", "release"])))
     return cases
 
 
@@ -443,7 +468,12 @@ def walk(case, recs, pid="C01"):
             info["failed_polls"] += 1
             k = "io:" + "+".join(sorted(faults)) if faults else "code" if served_err else "none"
             info["fail_kinds"][k] = info["fail_kinds"].get(k, 0) + 1
-            if not faults and not served_err:
+            stuck = m.get("stuck")
+            too_large_ok = (res == T("err", [T("kafka", [10])]) and stuck is not None and len(reqs) == 1
+                            and (reqs[0][1], reqs[0][2]) == (stuck[0], stuck[1]) and tr.pos[(stuck[0], stuck[1])] == stuck[2])
+            if too_large_ok:
+                info["fail_kinds"]["toolarge"] = info["fail_kinds"].get("toolarge", 0) + 1
+            elif not faults and not served_err:
                 fails.append("%s: %s poll failed (%s) although no partition reported an error and no I/O failed" % (tag, where, dumps(res)[:60]))
             if "read" in faults and not m.get("idle0"):
                 tag = pid + "-late-reply"
@@ -484,6 +514,9 @@ def oracle(case, recs, cl):
                     fails.append("%s: leaderless partition %r:%d delivered data" % ((tr.pid,) + tp))
                 continue
             rem = tr.remaining(tp)
+            st = case["meta"].get("stuck")
+            if st and (tp[0], tp[1]) == (st[0], st[1]):
+                rem = [x for x in rem if x[0] < st[2]]      # nothing behind the oversized entry can be delivered
             if rem:
                 fails.append("%s: after %d clean polls %d messages of %r:%d are still undelivered (next expected offset %d)"
                              % (tr.pid, case["meta"]["ntail"], len(rem), tp[0], tp[1], rem[0][0]))
